@@ -389,6 +389,66 @@ func TestC19(t *testing.T) {
 			return
 		}
 	}
+	// (5) the same for every ordered triple of detectors (repeats allowed), with nothing
+	// pre-enabled and with the first required extractor of the middle detector pre-enabled: the
+	// enabled extractors are exactly the union of what the three require, each once.
+	reqDets := []detector.Detector{}
+	var noReq detector.Detector
+	for _, d := range detAll {
+		if len(d.RequiredExtractors()) > 0 {
+			reqDets = append(reqDets, d)
+		} else if noReq == nil {
+			noReq = d
+		}
+	}
+	if noReq != nil {
+		reqDets = append(reqDets, noReq)
+	}
+	for _, a := range reqDets {
+		for _, b := range reqDets {
+			for _, c := range reqDets {
+				for pre := 0; pre < 2; pre++ {
+					cfg := &scalibr.ScanConfig{Detectors: []detector.Detector{a, b, c}}
+					if pre == 1 {
+						if len(b.RequiredExtractors()) == 0 {
+							continue
+						}
+						n := b.RequiredExtractors()[0]
+						if l, lerr := el.ExtractorsFromNames([]string{n}); lerr == nil {
+							cfg.FilesystemExtractors = l
+						} else if l, lerr := sl.ExtractorsFromNames([]string{n}); lerr == nil {
+							cfg.StandaloneExtractors = l
+						} else {
+							continue
+						}
+					}
+					want := uniqStrings(append(append(append([]string{}, a.RequiredExtractors()...), b.RequiredExtractors()...), c.RequiredExtractors()...))
+					var err error
+					if rerr := cfg.EnableRequiredExtractors(); rerr != nil {
+						err = fmt.Errorf("EnableRequiredExtractors for detectors %q, %q, %q: %v", a.Name(), b.Name(), c.Name(), rerr)
+					} else {
+						var got []string
+						for _, x := range cfg.FilesystemExtractors {
+							got = append(got, x.Name())
+						}
+						for _, x := range cfg.StandaloneExtractors {
+							got = append(got, x.Name())
+						}
+						sort.Strings(got)
+						w := append([]string{}, want...)
+						sort.Strings(w)
+						if strings.Join(got, ",") != strings.Join(w, ",") {
+							err = fmt.Errorf("detectors %q, %q, %q (pre-enabled: %v) require %v; enabled extractors afterwards: %v", a.Name(), b.Name(), c.Name(), pre == 1, w, got)
+						}
+					}
+					distinct := a.Name() != b.Name() && b.Name() != c.Name() && a.Name() != c.Name()
+					if !e.Report(capCase{Check: "enable_required_triple", Kind: "detector", Plugin: a.Name() + "|" + b.Name() + "|" + c.Name(), Name: fmt.Sprintf("pre=%d", pre)}, ev.Outcome{NonTrivial: distinct, Classes: []string{"enable_required_triple"}}, err) {
+						return
+					}
+				}
+			}
+		}
+	}
 	completed = true
 }
 
